@@ -35,7 +35,7 @@ type Prog struct {
 	Order    int   `json:"order"`   // 0 lww, 1 hash
 	Codec    int   `json:"codec"`   // world.Codec
 	Ops      []Op  `json:"ops"`
-	Sync     []int `json:"sync,omitempty"` // choices for the final complete exchange (empty: no exchange)
+	Sync     []int `json:"sync,omitempty"`   // choices for the final complete exchange (empty: no exchange)
 	Clocks   []int `json:"clocks,omitempty"` // initial clock time per replica (LogOptions.Clock)
 }
 
@@ -85,7 +85,7 @@ type GenConfig struct {
 	NoRebuild   bool
 	NoSetID     bool
 	WithLoad    bool // include "load": the replica restarts from the store (manifest / JSON heads / head entries)
-	AppendBias  int // extra weight for appends
+	AppendBias  int  // extra weight for appends
 }
 
 func Gen(t *rapid.T, cfg GenConfig) Prog {
